@@ -576,6 +576,11 @@ func runGatedAdapters(f lib.Flags, res *lib.Result, drv *lib.Driver, rng *rand.R
 			mon.Count("skipped-after-leaking-cases")
 			continue
 		}
+		if crashedStrategy(crashedFns, g.Strat) {
+			// Execute with this strategy kills the process
+			mon.Count("skipped-crashing-entry-point")
+			continue
+		}
 		if thin.skip(i, fmt.Sprint(g.fn(), "/", g.Strat, "/n=", len(g.Behs))) {
 			mon.Count("thinned-after-leaks")
 			continue
